@@ -18,12 +18,12 @@ _INFL_NOTE = ("Trusted: TLC, the probe construction (CustomSD subclass with an e
 
 CHECKS = {
     "C01": {
-        "text": "Influence.tla models the TEMPO row algorithm and the PT-TEMPO column algorithm one action per code branch and states the documented meaning of dkmax/tcut/add_correlation_time as a set of influence cells; TLC checks algorithm = documentation on every state for all (N, dkmax, add_correlation_time) in the bound and emits the expected integer coefficient vectors, which the real Tempo / PtTempo+compute_dynamics must reproduce for every matrix element at every step (exact probe bath, commuting Hamiltonian), together with the exact sequence of 2D-integral requests; dkmax and tcut (binary and decimal dt), the library's CustomCorrelations quadrature (polynomial correlation function) and - as a numerical cross-check only - real spectral densities of every cutoff type against an independent quadrature.",
+        "text": "Influence.tla models the TEMPO row algorithm and the PT-TEMPO column algorithm one action per code branch and states the documented meaning of dkmax/tcut/add_correlation_time as a set of influence cells; TLC checks algorithm = documentation on every state for all (N, dkmax, add_correlation_time) in the bound and emits the expected integer coefficient vectors, which the real Tempo / PtTempo+compute_dynamics must reproduce for every matrix element at every step (exact probe bath, commuting Hamiltonian), together with the exact sequence of 2D-integral requests; dkmax and tcut (binary and decimal dt), the library's CustomCorrelations quadrature (polynomial correlation function) and - as numerical cross-checks only - real spectral densities of every cutoff type against an independent quadrature, and finite-mode baths (1..3 modes, non-commuting dissipative system, non-diagonal coupling) against an explicit system+modes simulation with the same symmetric splitting.",
         "note": _INFL_NOTE,
         "technique": "TLA+ spec + TLC exhaustive over memory settings; spec->code replay with exact probe bath; request-trace comparison",
     },
     "C02": {
-        "text": "Influence.tla: TLC checks that the TEMPO row algorithm model and the PT-TEMPO column algorithm model yield the same documented influence set at every step and that an N-step column cover restricted to n rows is the n-step cover (ColPrefix). Both real methods are replayed on non-commuting permutation (clock) systems - constant and explicitly time-dependent, sampled and integrated - and every matrix element at every step must equal the spec's integer-exponent prediction, including compute_dynamics(num_steps=n) on a longer process tensor; the times handed to H(t) are validated against the per-step sampling pattern.",
+        "text": "Influence.tla: TLC checks that the TEMPO row algorithm model and the PT-TEMPO column algorithm model yield the same documented influence set at every step and that an N-step column cover restricted to n rows is the n-step cover (ColPrefix). Both real methods are replayed on non-commuting permutation (clock) systems - constant and explicitly time-dependent, sampled and integrated - and every matrix element at every step must equal the spec's integer-exponent prediction, including compute_dynamics(num_steps=n) on a longer process tensor; the times handed to H(t) are validated against the per-step sampling pattern. Generic Hamiltonians with real baths: numerical cross-check of agreement (<= 100 epsrel) and tightening.",
         "note": _INFL_NOTE + " Generic (non-permutation) Hamiltonians 'within truncation tolerance' are numerical and not covered.",
         "technique": "TLA+ spec + TLC exhaustive; spec->code replay of both algorithms against one spec state; call-time trace validation of user H(t)",
     },
